@@ -7,7 +7,7 @@ CONSTANTS
   MCMax = {}
   MCIds = 3
   MCBodies = {"none", "once"}
-  MCEnv = {"goaway", "srst", "cancel"}
+  MCEnv = {"goaway", "goaway_err", "srst", "cancel"}
   MCStrict = {TRUE, FALSE}
 INVARIANTS TypeOK IdsOdd InFlightIsLive NoSecondCopy
 PROPERTIES GrowWithinLimit QuietAfterGoAway IncreasingIds
